@@ -80,9 +80,9 @@ func init() {
 		assumptions: []string{"type/length validation is performed by EncodeValue inside the sink"},
 	})
 	register("C13", &propDef{
-		patterns:    []string{"./embedded/sql", "./embedded/document", "./pkg/server/sessions/...", "./pkg/database"},
+		patterns:    []string{"./embedded/sql", "./embedded/document", "./pkg/server/sessions/...", "./pkg/database", "./pkg/pgsql/server"},
 		run:         c13,
-		explanation: "Decides the structural clauses behind SQL transaction atomicity: the store transaction of a SQL transaction is committed at exactly one site (SQLTx.Commit), closed transactions are refused, cancel paths reach the store's Cancel (ROLLBACK statement, session rollback, every function that drops sessions), all SQL writes go through the SQLTx wrappers of one store transaction, and ROLLBACK TO SAVEPOINT must reach the store write-set (it does not today: known finding). It does NOT decide isolation between concurrent sessions (C05) nor the pgsql front-end.",
+		explanation: "Decides the structural clauses behind SQL transaction atomicity: the store transaction of a SQL transaction is committed at exactly one site (SQLTx.Commit), closed transactions are refused, cancel paths reach the store's Cancel (ROLLBACK statement, session rollback, every function that drops sessions), all SQL writes go through the SQLTx wrappers of one store transaction, and ROLLBACK TO SAVEPOINT must reach the store write-set (it does not today: known finding). On the PostgreSQL wire front-end it decides one clause: after a statement failed inside a transaction block nothing runs on its own until the block ends. It does NOT decide isolation between concurrent sessions (C05).",
 		assumptions: []string{},
 	})
 	register("C08", &propDef{
